@@ -1552,6 +1552,9 @@ class Data(BaseCartesianData):
           - New components must have the same shape as old components
           - Component subclasses cannot be updated.
         """
+        # We check all the components and values before changing anything, so
+        # that the data is left unchanged if there is an issue with any of them
+        updates = []
         for comp, data in mapping.items():
             if isinstance(comp, ComponentID):
                 comp = self.get_component(comp)
@@ -1563,7 +1566,9 @@ class Data(BaseCartesianData):
             data = np.asarray(data)
             if data.shape != self.shape:
                 raise ValueError("Cannot change shape of data")
+            updates.append((comp, data))
 
+        for comp, data in updates:
             comp._data = data
 
         # no cached mask can be trusted anymore (do this before alerting the
